@@ -15,8 +15,8 @@ use tokio::io::{AsyncReadExt, AsyncWriteExt};
 use tokio::net::TcpListener;
 
 const RULE: &str = "one case = one raw HTTP/1.1 request (plus, where the statement demands indistinguishability, the same request on an unknown path) sent over a real socket to a real run_listener; \
-the matrix method x path x {valid, case change, absent, empty, near-miss x2, duplicated-invalid, duplicated-mixed, space-padded} for each of Connection / Upgrade / Sec-WebSocket-Version / Sec-WebSocket-Protocol x key {valid, absent, empty} x request line {HTTP/1.1, HTTP/1.0} x PSK presented {equal, absent, prefix, extended, case variant, padded} \
-x server configuration {PSK on/off} x {obfs on/off} x {404 body, stub backend}: all cells with at most two deviations from the valid request are enumerated, random cells beyond. \
+the matrix method x path x {valid, case change, absent, empty, near-miss x2, duplicated-invalid, duplicated-mixed, space-padded} for each of Connection / Upgrade / Sec-WebSocket-Version / Sec-WebSocket-Protocol x key {24 characters, longer, shorter, absent, empty} x request line {HTTP/1.1, HTTP/1.0} x PSK presented {equal, absent, prefix, extended, case variant, padded} \
+x server configuration {PSK on/off} x {obfs on/off} x {404 body, stub backend, stub backend with forwarding headers}: all cells with at most two deviations from the valid request are enumerated, random cells beyond. \
 Oracle: 101 iff the independent predicate holds, with the accepted protocol and our own SHA-1/base64 accept hash and a live WebSocket behind it (Ping answered); otherwise status/headers/body equal the unknown-path response and the stub backend saw the same request. \
 Cells the statement leaves open (duplicate header with one valid value, empty key, HTTP/1.0 request line) get no verdict on 101-or-not, but when refused they must be hidden like any other request. Non-trivial = the cell deviates from the valid request in at least one dimension or is answered 101";
 
@@ -93,10 +93,8 @@ fn request_bytes(c: &Cell, path: &str) -> Vec<u8> {
             s.push_str("\r\n");
         }
     }
-    match c.key {
-        Hv::Valid => s.push_str(&format!("Sec-WebSocket-Key: {KEY}\r\n")),
-        Hv::Empty => s.push_str("Sec-WebSocket-Key:\r\n"),
-        _ => {}
+    if let Some(k) = key_value(c.key) {
+        s.push_str(&format!("Sec-WebSocket-Key: {k}\r\n"));
     }
     match c.psk {
         Psk::Equal => s.push_str(&format!("X-Penguin-PSK: {PSK}\r\n")),
@@ -113,6 +111,17 @@ fn request_bytes(c: &Cell, path: &str) -> Vec<u8> {
     s.into_bytes()
 }
 
+/// The key sent for a cell: the usual 24-character one, a longer and a shorter one (a key is a key: the accept hash covers all of it).
+fn key_value(k: Hv) -> Option<&'static str> {
+    match k {
+        Hv::Valid => Some(KEY),
+        Hv::Near1 => Some("dGhlIHNhbXBsZSBub25jZQ==dGhlIHNhbXBsZSBub25jZQ=="),
+        Hv::Near2 => Some("c2hvcnQ="),
+        Hv::Empty => Some(""),
+        _ => None,
+    }
+}
+
 fn valid_hv(v: Hv) -> bool {
     matches!(v, Hv::Valid | Hv::Case | Hv::Padded)
 }
@@ -123,7 +132,7 @@ fn expect_101(c: &Cell, psk_configured: bool) -> Option<bool> {
     if c.h.iter().any(|v| *v == Hv::DupMixed) || c.key == Hv::Empty || c.http10 {
         return None;
     }
-    let ok = c.method == "GET" && c.path == "/ws" && c.h.iter().all(|v| valid_hv(*v)) && c.key == Hv::Valid && (!psk_configured || c.psk == Psk::Equal);
+    let ok = c.method == "GET" && c.path == "/ws" && c.h.iter().all(|v| valid_hv(*v)) && matches!(c.key, Hv::Valid | Hv::Near1 | Hv::Near2) && (!psk_configured || c.psk == Psk::Equal);
     Some(ok)
 }
 
@@ -132,6 +141,8 @@ struct SrvCfg {
     psk: bool,
     obfs: bool,
     backend: bool,
+    /// --backend-add-forwarding-headers (only meaningful with a backend)
+    fwd: bool,
 }
 
 type Recorded = Arc<Mutex<Vec<(String, String, Vec<(String, String)>)>>>;
@@ -172,7 +183,7 @@ async fn stub_backend() -> (SocketAddr, Recorded) {
 
 async fn start_server(cfg: &SrvCfg) -> (SocketAddr, Option<Recorded>) {
     let mut rec = None;
-    let mut state = State::new().await.expect("state").with_not_found_resp("verif-404-body").obfs(cfg.obfs).with_backend_http2_support(false);
+    let mut state = State::new().await.expect("state").with_not_found_resp("verif-404-body").obfs(cfg.obfs).with_backend_http2_support(false).backend_add_forwarding_headers(cfg.fwd);
     if cfg.psk {
         let hv: &'static http::HeaderValue = Box::leak(Box::new(http::HeaderValue::from_static(PSK)));
         state = state.with_ws_psk(Some(hv));
@@ -198,7 +209,7 @@ fn all_cells(max_dev: usize, rng: &mut Rng64, extra_random: usize) -> Vec<Cell> 
     for i in 0..4 {
         muts.push(HV_ALTS.into_iter().map(|v| Box::new(move |c: &mut Cell| c.h[i] = v) as Box<dyn Fn(&mut Cell)>).collect());
     }
-    muts.push([Hv::Absent, Hv::Empty].into_iter().map(|v| Box::new(move |c: &mut Cell| c.key = v) as Box<dyn Fn(&mut Cell)>).collect());
+    muts.push([Hv::Absent, Hv::Empty, Hv::Near1, Hv::Near2].into_iter().map(|v| Box::new(move |c: &mut Cell| c.key = v) as Box<dyn Fn(&mut Cell)>).collect());
     muts.push([Psk::Absent, Psk::Prefix, Psk::Extended, Psk::CaseVar, Psk::Padded].into_iter().map(|v| Box::new(move |c: &mut Cell| c.psk = v) as Box<dyn Fn(&mut Cell)>).collect());
     muts.push(vec![Box::new(|c: &mut Cell| c.http10 = true) as Box<dyn Fn(&mut Cell)>]);
     let mut out = vec![base];
@@ -251,7 +262,7 @@ async fn ws_ping_probe(mut s: tokio::net::TcpStream, leftover: Vec<u8>) -> bool 
 
 async fn run_cfg(st: &mut Stats, cfg: &SrvCfg, cells: &[Cell]) {
     let (addr, rec) = start_server(cfg).await;
-    let cfg_s = format!("psk={} obfs={} backend={}", cfg.psk, cfg.obfs, cfg.backend);
+    let cfg_s = format!("psk={} obfs={} backend={} forwarding_headers={}", cfg.psk, cfg.obfs, cfg.backend, cfg.fwd);
     for c in cells {
         st.evaluations += 1;
         let deviates = *c != Cell { method: "GET", path: "/ws", h: [Hv::Valid; 4], key: Hv::Valid, psk: Psk::Equal, http10: false };
@@ -289,7 +300,7 @@ async fn run_cfg(st: &mut Stats, cfg: &SrvCfg, cells: &[Cell]) {
                 if resp.header("sec-websocket-protocol") != Some("penguin-v7") {
                     st.violation(Violation { signature: "101-protocol-header".into(), detail: format!("101 response carries Sec-WebSocket-Protocol {:?}", resp.header("sec-websocket-protocol")), replay: replay(resp.short()) });
                 }
-                let acc = net::ws_accept(KEY);
+                let acc = net::ws_accept(key_value(c.key).unwrap_or(KEY));
                 if resp.header("sec-websocket-accept") != Some(acc.as_str()) {
                     st.violation(Violation { signature: "101-accept-hash".into(), detail: format!("101 response carries Sec-WebSocket-Accept {:?}, RFC 6455 prescribes {acc}", resp.header("sec-websocket-accept")), replay: replay(resp.short()) });
                 }
@@ -307,7 +318,7 @@ async fn run_cfg(st: &mut Stats, cfg: &SrvCfg, cells: &[Cell]) {
                     st.target("expected_refusal", 1);
                 }
                 if resp.status == 101 {
-                    let why = if c.method != "GET" { "method" } else if c.path != "/ws" { "path" } else if c.key != Hv::Valid { "key" } else if cfg.psk && c.psk != Psk::Equal { "psk" } else { "header" };
+                    let why = if c.method != "GET" { "method" } else if c.path != "/ws" { "path" } else if !matches!(c.key, Hv::Valid | Hv::Near1 | Hv::Near2) { "key" } else if cfg.psk && c.psk != Psk::Equal { "psk" } else { "header" };
                     st.violation(Violation { signature: format!("invalid-upgrade-accepted|{why}"), detail: format!("the server answered 101 to a request that is not a fully valid, authenticated upgrade ({why}); cell {c:?} [{cfg_s}]"), replay: replay(resp.short()) });
                     continue;
                 }
@@ -351,8 +362,9 @@ pub fn run(p: &Params) -> (Stats, &'static str) {
     for psk in [false, true] {
         for obfs in [false, true] {
             for backend in [false, true] {
-                cfgs.push(SrvCfg { psk, obfs, backend });
+                cfgs.push(SrvCfg { psk, obfs, backend, fwd: false });
             }
+            cfgs.push(SrvCfg { psk, obfs, backend: true, fwd: true });
         }
     }
     let rt = tokio::runtime::Builder::new_multi_thread().worker_threads(2).enable_all().build().expect("rt");
@@ -365,7 +377,7 @@ pub fn run(p: &Params) -> (Stats, &'static str) {
             break;
         }
     }
-    st.exhaustive.push("all request cells with at most two deviations from the valid upgrade request, x 8 server configurations".into());
+    st.exhaustive.push("all request cells with at most two deviations from the valid upgrade request, x 12 server configurations".into());
     st.sample(json!({"request": String::from_utf8_lossy(&request_bytes(&cells[cells.len().min(100) - 1], "/ws")), "checked": "status 101 iff predicate; else response == response of the same request on /verif-unknown-path"}));
     rt.shutdown_background();
     (st, RULE)
